@@ -109,6 +109,7 @@ def parse_harness_file(flavour, rel, full):
                 "covers": covers,
                 "ncovers": ncovers,
                 "expect": hdr.get("EXPECT", [""])[0],
+                "termination": [x.strip() for x in ";".join(hdr.get("TERMINATION", [])).split(";") if x.strip()],
                 "unwindset": [x.strip() for x in ";".join(hdr.get("UNWINDSET", [])).split(";") if x.strip()],
             })
             i = e + 1
@@ -420,16 +421,31 @@ def playback_native(twin_dir, flavour, package, harness, tests, log_path):
     cmd += ["--", "kani_concrete_playback_" + harness["name"]]
     with Lock(f"target-playback-{flavour}", 1) as lk:
         env["CARGO_TARGET_DIR"] = lk.dir
-        p = subprocess.run(cmd, cwd=twin_dir, env=env, stdout=subprocess.PIPE, stderr=subprocess.STDOUT, text=True, timeout=3600)
-    open(log_path, "w").write(p.stdout)
-    failed = re.findall(r"^test (\S+) \.\.\. FAILED", p.stdout, re.M)
-    passed = re.findall(r"^test (\S+) \.\.\. ok", p.stdout, re.M)
-    panics = re.findall(r"panicked at ([^\n]*)\n([^\n]*)", p.stdout)
-    return failed, passed, panics, p.stdout[-3000:]
+        # build first (a filter that matches nothing), so that the time limit below applies to the test only
+        subprocess.run(cmd[:-1] + ["kani_concrete_playback_build_only_no_such_test"], cwd=twin_dir, env=env,
+                       stdout=subprocess.PIPE, stderr=subprocess.STDOUT, text=True, timeout=3600)
+        try:
+            p = subprocess.run(cmd, cwd=twin_dir, env=env, stdout=subprocess.PIPE, stderr=subprocess.STDOUT, text=True,
+                               timeout=int(os.environ.get("VERIF_NATIVE_TIMEOUT", "240")))
+            out = p.stdout
+            hung = False
+        except subprocess.TimeoutExpired as e:
+            out = (e.stdout or b"").decode(errors="replace") if isinstance(e.stdout, bytes) else (e.stdout or "")
+            hung = True
+            subprocess.run(["pkill", "-f", "kani_concrete_playback_" + harness["name"]])
+    open(log_path, "w").write(out)
+    failed = re.findall(r"^test (\S+) \.\.\. FAILED", out, re.M)
+    passed = re.findall(r"^test (\S+) \.\.\. ok", out, re.M)
+    panics = re.findall(r"panicked at ([^\n]*)\n([^\n]*)", out)
+    if hung and harness["termination"]:
+        # a termination harness whose native run does not finish reproduces the non-termination
+        failed = failed or ["kani_concrete_playback_" + harness["name"] + " (native run does not terminate)"]
+        panics = panics or [("native run still running after the time limit", "non-termination reproduced")]
+    return failed, passed, panics, out[-3000:]
 
 
 def write_replay_file(prop, harness, tests, checks, how):
-    d = os.path.join(VERIF, "replays", prop)
+    d = os.path.join(os.environ.get("VERIF_REPLAY_DIR", os.path.join(VERIF, "replays")), prop)
     os.makedirs(d, exist_ok=True)
     path = os.path.join(d, harness["name"] + ".rs")
     with open(path, "w") as f:
@@ -474,7 +490,7 @@ def check(prop, tier, keep=False):
     groups = {}
     for h in hs:
         groups.setdefault((h["flavour"], h["package"]), []).append(h)
-    logs_dir = os.path.join(VERIF, "logs")
+    logs_dir = os.environ.get("VERIF_LOGS_DIR", os.path.join(VERIF, "logs"))
     os.makedirs(logs_dir, exist_ok=True)
     results = []
     twin_stats = {}
@@ -505,8 +521,10 @@ def check(prop, tier, keep=False):
                 r["harness"] = h
                 results.append(r)
                 st = r["status"]
-                real_fail = [fc for fc in r["failed_checks"] if not is_unwind_failure(fc)]
-                unwind_fail = [fc for fc in r["failed_checks"] if is_unwind_failure(fc)]
+                def must_terminate(fc, h=h):
+                    return is_unwind_failure(fc) and any(t in fc["function"] for t in h["termination"])
+                real_fail = [fc for fc in r["failed_checks"] if not is_unwind_failure(fc) or must_terminate(fc)]
+                unwind_fail = [fc for fc in r["failed_checks"] if is_unwind_failure(fc) and not must_terminate(fc)]
                 if st == "SUCCESSFUL":
                     if r.get("covers", 0) < 1 or r.get("covers_sat") != r.get("covers"):
                         r["verdict"] = "vacuous"
@@ -527,7 +545,8 @@ def check(prop, tier, keep=False):
             cands = [r for r in results if r.get("verdict") == "candidate" and r["harness"] in group]
             for r in cands:
                 h = r["harness"]
-                real_fail = [fc for fc in r["failed_checks"] if not is_unwind_failure(fc)]
+                real_fail = [fc for fc in r["failed_checks"] if not is_unwind_failure(fc)
+                             or any(t in fc["function"] for t in h["termination"])]
                 unmatched = []
                 for fc in real_fail:
                     f = match_finding(findings, prop, h["name"], fc)
@@ -547,6 +566,11 @@ def check(prop, tier, keep=False):
                 cmds.append(cmd2)
                 p2 = parse_log(open(pb_log, errors="replace").read(), [h])[h["full_name"]]
                 tests = [pb["test"] for pb in p2.get("playback", []) if pb["kind"] != "cover"]
+                if not tests and all(is_unwind_failure(fc) for fc in unmatched):
+                    # Kani produces no playback values for a failed unwinding assertion (non-termination):
+                    # the cover witnesses of the harness are tried as inputs; a native run that does not
+                    # finish within the time limit reproduces the non-termination.
+                    tests = [pb["test"] for pb in p2.get("playback", [])]
                 if not tests:
                     # A harness without symbolic inputs (a concretely enumerated scenario family) has no
                     # values to play back: it is simply executed natively. If it needs values after all,
@@ -641,8 +665,9 @@ def check(prop, tier, keep=False):
         "wall_s": round(wall, 2),
         "violations": len(violations),
     }
-    os.makedirs(os.path.join(VERIF, "evidence"), exist_ok=True)
-    with open(os.path.join(VERIF, "evidence", f"{prop}.json"), "w") as f:
+    ev_dir = os.environ.get("VERIF_EVIDENCE_DIR", os.path.join(VERIF, "evidence"))
+    os.makedirs(ev_dir, exist_ok=True)
+    with open(os.path.join(ev_dir, f"{prop}.json"), "w") as f:
         json.dump(ev, f, indent=1)
 
     for r in results:
